@@ -310,9 +310,23 @@ func ruleCIDOnSend(c *Ctx, r *Report) {
 		v := p.fields["ShouldWrapCID"]
 		ok := false
 		if v != nil {
-			ok = anyLeaf(c.Origins(v, 0), func(l ssa.Value) bool {
-				return isCallResult(l, nameHasSuffix(".ShouldWrapConnectionID")) || isCallResult(l, nameHasSuffix("ConnectionID).ShouldWrap"))
-			}) || strings.Contains(shapeOf(v, 0), "ShouldWrapConnectionID")
+			// exactly the negotiated state: not and-ed / or-ed with anything else, except for the
+			// protocol-version test (DTLS 1.3 carries the CID in the unified header instead)
+			if phi, isPhi := v.(*ssa.Phi); isPhi && len(phi.Edges) == 2 {
+				for i, e := range phi.Edges {
+					if k, isC := constBool(e); isC && !k {
+						pred := phi.Block().Preds[i]
+						if iff, isIf := pred.Instrs[len(pred.Instrs)-1].(*ssa.If); isIf {
+							if call, isCall := iff.Cond.(*ssa.Call); isCall && strings.HasSuffix(calleeName(&call.Call), "Version).Equal") {
+								v = phi.Edges[1-i]
+							}
+						}
+					}
+				}
+			}
+			ok = allLeaves(c.Origins(v, 0), func(l ssa.Value) bool {
+				return isCallResult(l, nameHasSuffix(".ShouldWrapConnectionID")) || isCallResult(l, nameHasSuffix("ConnectionID).ShouldWrap")) || strings.Contains(shapeOf(l, 0), "ShouldWrapConnectionID(")
+			})
 			if !ok {
 				// the freshly decided connection ID of this (abbreviated) handshake
 				for _, b := range p.fn.Blocks {
